@@ -2,7 +2,54 @@
 // operation has the semantics of its std counterpart.
 pub mod async_std {
     pub mod fs {
-        pub use crate::shims::std::fs::{File, read, copy, remove_file, create_dir_all, OpenOptions, DirBuilder, metadata, remove_dir_all};
+        use vstd::prelude::*;
+        use crate::spec::*;
+        use crate::shims::std::io;
+        use crate::shims::std::path::PathArg;
+        pub use crate::shims::std::fs::{File, read, copy, remove_file, create_dir_all, DirBuilder, metadata, remove_dir_all};
+        use crate::shims::std::fs::{OpenMode, file_buffered, file_pending};
+        /// the runtime's OpenOptions: as std's, but the handle it opens BUFFERS writes in user
+        /// space until `flush` (see `file_buffered` in shims/std_fs.rs)
+        #[verifier::external_body]
+        pub struct OpenOptions { o: u8 }
+        impl View for OpenOptions { type V = OpenMode; uninterp spec fn view(&self) -> OpenMode; }
+        impl OpenOptions {
+            #[verifier::external_body]
+            pub fn new() -> (r: OpenOptions) ensures r@ == (OpenMode { read: false, write: false, append: false, create: false, truncate: false }) { unimplemented!() }
+            #[verifier::external_body]
+            pub fn read(&mut self, b: bool) -> (r: &mut OpenOptions) ensures r@ == (OpenMode { read: b, ..old(self)@ }), *final(r) == *final(self) { unimplemented!() }
+            #[verifier::external_body]
+            pub fn write(&mut self, b: bool) -> (r: &mut OpenOptions) ensures r@ == (OpenMode { write: b, ..old(self)@ }), *final(r) == *final(self) { unimplemented!() }
+            #[verifier::external_body]
+            pub fn append(&mut self, b: bool) -> (r: &mut OpenOptions) ensures r@ == (OpenMode { append: b, ..old(self)@ }), *final(r) == *final(self) { unimplemented!() }
+            #[verifier::external_body]
+            pub fn create(&mut self, b: bool) -> (r: &mut OpenOptions) ensures r@ == (OpenMode { create: b, ..old(self)@ }), *final(r) == *final(self) { unimplemented!() }
+            #[verifier::external_body]
+            pub fn truncate(&mut self, b: bool) -> (r: &mut OpenOptions) ensures r@ == (OpenMode { truncate: b, ..old(self)@ }), *final(r) == *final(self) { unimplemented!() }
+            #[verifier::external_body]
+            pub fn open<A: PathArg>(&self, p: A, Tracked(w): Tracked<&mut World>) -> (r: io::Result<File>)
+                ensures
+                    old(w).healthy == final(w).healthy,
+                    world_wf(*old(w)) ==> world_wf(*final(w)),
+                    hist_ext(*old(w), *final(w)),
+                    r is Err ==> final(w).fs == old(w).fs && final(w).hist == old(w).hist,
+                    r is Ok ==> {
+                        let q = resolve(old(w).fs, p.pathv());
+                        let existed = old(w).fs.files.contains_key(q);
+                        let bytes0 = if existed && !self@.truncate { old(w).fs.files[q] } else { Seq::<u8>::empty() };
+                        &&& (existed || self@.create)
+                        &&& (self@.write || self@.append || (!self@.create && !self@.truncate))
+                        &&& final(w).fs == (Fs { files: old(w).fs.files.insert(q, bytes0), ..old(w).fs })
+                        &&& (final(w).fs == old(w).fs ==> final(w).hist == old(w).hist)
+                        &&& (final(w).fs != old(w).fs ==> final(w).hist == old(w).hist.push(final(w).fs))
+                        &&& r->Ok_0@.path == q && r->Ok_0@.content == bytes0 && r->Ok_0@.pos == 0 && r->Ok_0@.mode == self@ && (old(w).healthy ==> r->Ok_0@.reliable)
+                        &&& bytes0.len() <= usize::MAX
+                        &&& file_buffered(r->Ok_0) && file_pending(r->Ok_0) == Seq::<u8>::empty()
+                    },
+                    old(w).healthy && (self@.write || self@.append) && self@.create && old(w).fs.dirs.contains(parent_of(p.pathv()))
+                        && !old(w).fs.dirs.contains(p.pathv()) && !old(w).fs.links.contains_key(p.pathv()) ==> r is Ok,
+            { unimplemented!() }
+        }
     }
     pub mod io {
         pub use crate::shims::std::io::BufReader;
@@ -89,7 +136,8 @@ pub mod futures {
 // @FLAVOUR tokio
 pub mod tokio {
     pub mod fs {
-        pub use crate::shims::std::fs::{File, read, copy, remove_file, create_dir_all, OpenOptions, DirBuilder, metadata, remove_dir_all};
+        pub use crate::shims::std::fs::{File, read, copy, remove_file, create_dir_all, DirBuilder, metadata, remove_dir_all};
+        pub use crate::shims::async_std::fs::OpenOptions;
     }
     pub mod io {
         use vstd::prelude::*;
